@@ -110,8 +110,36 @@ def shared_statement_object(att, p):
     return False
 
 
+# stdlib wrappers that only forward to one primitive at the same cursor: classified as that primitive
+STD_ALIAS = {"std:reorder_stmt_forward": "reorder_stmts", "std:reorder_stmt_backwards": "reorder_stmts"}
+
+
+def type_exprs(t):
+    """index expressions occurring inside a LoopIR type (tensor extents)"""
+    try:
+        return list(t.shape()) if hasattr(t, "shape") and t.is_tensor_or_window() else []
+    except Exception:
+        return []
+
+
+def iter_in_alloc_shape(loop):
+    """an allocation inside the loop has an extent that mentions the loop's iteration variable
+    (pattern-based substitution `_replace_reads` never visits types)"""
+    LoopIR, T = _mods()
+    for x in (y for s in loop.body for y in walk(s)):
+        if isinstance(x, LoopIR.Alloc) and loop.iter in names_read(type_exprs(x.type)):
+            return True
+    return False
+
+
 def classify_mismatch(att, p, p2, bad, pj=None, inp=None):
     op = att["op"]
+    if op in STD_ALIAS:
+        att = dict(att, op=STD_ALIAS[op])
+        if op == "std:reorder_stmt_backwards" and att["path"]:
+            # the wrapper swaps the statement with its predecessor: the primitive's cursor is the predecessor
+            att["path"] = att["path"][:-1] + [[att["path"][-1][0], att["path"][-1][1] - 1]]
+        op = att["op"]
     try:
         if shared_statement_object(att, p):
             return "effect-analysis:context-of-first-occurrence-of-shared-statement-object"
@@ -193,8 +221,37 @@ def _situation(att, p, p2, bad, env):
                        if isinstance(x, (LoopIR.Read, LoopIR.WindowExpr)) and x.name == n.name)
         if nreads(ir.body) > nreads(rest):
             return "assigned-buffer-read-outside-rest-of-block"
+    if op in ("divide_loop", "mult_loops", "divide_with_recompute") and isinstance(n, LoopIR.For):
+        iters = {n.iter} | ({n.body[0].iter} if op == "mult_loops" and n.body and isinstance(n.body[0], LoopIR.For) else set())
+        if "scope" in bad and any(isinstance(x, LoopIR.Alloc) and iters & names_read(type_exprs(x.type))
+                                  for st in n.body for x in walk(st)):
+            return "iteration-variable-in-allocation-shape-not-substituted"
     if op == "divide_with_recompute":
         v = eval_str(a["outer_hi"], env)
+        if v is None:
+            # outer_hi mentions enclosing iteration variables: is it non-positive for some of their values?
+            import exo.API_cursors as C
+            loops, cur = [], c.parent()
+            while isinstance(cur, C.ForCursor) or isinstance(cur, C.IfCursor):
+                if isinstance(cur, C.ForCursor):
+                    loops.insert(0, cur._impl._node)
+                cur = cur.parent()
+
+            def enum(k, e):
+                if k == len(loops):
+                    yield e
+                    return
+                lo, hi = eval_str(str(loops[k].lo), e), eval_str(str(loops[k].hi), e)
+                if lo is None or hi is None:
+                    return
+                for x in range(lo, min(hi, lo + 64)):
+                    yield from enum(k + 1, dict(e, **{str(loops[k].iter): x}))
+
+            for e in enum(0, dict(env)):
+                w = eval_str(a["outer_hi"], e)
+                if w is not None and w <= 0:
+                    v = w
+                    break
         if v is not None and v <= 0:
             return "outer-hi-not-positive-on-this-input"
         if not (isinstance(n.lo, LoopIR.Const) and n.lo.val == 0):
@@ -203,6 +260,10 @@ def _situation(att, p, p2, bad, env):
             return "recomputed-iterations-see-writes-of-later-iterations"
     if op == "stage_mem":
         buf = a["win"].split("[")[0]
+        al = window_aliases(ir)
+        touched = names_read([n]) | names_written([n])
+        if any(str(al.get(x)) == buf and str(x) != buf for x in touched if x in al):
+            return "block-accesses-staged-buffer-through-window-alias"
         reads = {str(x) for x in names_read([n])}
         if buf not in reads and not a.get("accum"):
             return "write-only-block:unwritten-window-cells-stored-back"
@@ -211,6 +272,15 @@ def _situation(att, p, p2, bad, env):
                 return "staged-buffer-written-through-call-never-stored-back"
     if op == "autofission":
         return "no-dependence-check"
+    if op == "autolift_alloc" and isinstance(n, LoopIR.Alloc) and "scope" in bad:
+        import exo.API_cursors as C
+        crossed, cur = set(), c.parent()
+        for _ in range(a.get("n", 1)):
+            if isinstance(cur, C.ForCursor):
+                crossed.add(cur._impl._node.iter)
+            cur = cur.parent()
+        if crossed & names_read(type_exprs(n.type)):
+            return "allocation-size-depends-on-crossed-iteration-variable"
     if op == "merge_writes":
         al = window_aliases(ir)
         pair = _block_nodes(c, 2)
